@@ -286,14 +286,23 @@ def run(ctx):
                        "definitions; non-trivial = definition containing at least one list, or a mutation case")
     # thread-pair independence first (LINE events are switched off again before the enumeration)
     from checks import pair_ops  # noqa: PLC0415
-    from mc import pairs  # noqa: PLC0415
+    from mc import firstuse, pairs  # noqa: PLC0415
 
+    # first use in a process before anything else touches the library (the workers must be pristine)
+    fu_ops = [["gen", "< L < MDLN > < SOFTREV > >"], ["gen", "< L RPT < L < RPTID > < L V < V > > > >"]]
+    if ctx.thorough:  # one forked child per execution: too slow for the quick tier of this check
+        firstuse.run_part(ctx, fu_ops, "C19", 1)
     ops = [["gen", t] for t in ("< L < MDLN > < SOFTREV > >", "< L < SVID > >", "< L RPT < L < RPTID > < L V < V > > > >", "< CEID >", "< L < DATAID > < CEID > < L RPT < L < RPTID > < L < V > > > > >")]
     pair_execs = pairs.run_part(ctx, ops, "C19", 1)  # (two delays over these long operations cost more than the whole enumeration)
     ctx.run_cases(check_case, cases(ctx), "c19", chunk=32)
 
 
 def replay(ctx, detail):
+    if isinstance(detail.get("case"), dict) and detail["case"].get("part") == "first-use":
+        from mc import firstuse  # noqa: PLC0415
+
+        firstuse.replay(ctx, detail["case"], "C19")
+        return
     if isinstance(detail.get("case"), dict) and detail["case"].get("part") == "pair":
         from mc import pairs  # noqa: PLC0415
 
